@@ -42,7 +42,9 @@ def gen_job(verif_seed, tier, index):
     g, e = st.gen, st.env
     members = []
     if g.random() < 0.2:
-        base = histgen.lib_op(g)
+        # a quarter of the library families have a base job that must be refused (block of another library):
+        # then every member has to be refused as well, whatever ran before in the process
+        base = histgen.lib_op(g, must_fail=g.random() < 0.25)
         base["listdir_perm"] = None
         members.append({"dim": "base", "hashseed": 0, "ops": [base], "observe": 0})
         for hs in histgen.PALETTE[1:]:
@@ -52,8 +54,12 @@ def gen_job(verif_seed, tier, index):
             op = dict(base)
             op["listdir_perm"] = e.getrandbits(30)
             members.append({"dim": "listdir", "hashseed": e.choice(histgen.PALETTE), "ops": [op], "observe": 0})
-        hist = _history(g, None, None)
-        members.append({"dim": "history", "hashseed": e.choice(histgen.PALETTE), "ops": hist + [base], "observe": len(hist)})
+        for _ in range(2):
+            hist = _history(g, None, None)
+            # at least one earlier call over a DIFFERENT shipped library (state that leaks between calls shows here)
+            hist.insert(g.randint(0, len(hist)), histgen.lib_op(g, out="h.itp", other_than=base["lib"][0]))
+            members.append({"dim": "history", "hashseed": e.choice(histgen.PALETTE), "ops": hist + [base],
+                            "observe": len(hist)})
         return {"index": index, "run_seed": seed, "members": members, "lib": True}
     ff = ffgen.gen_ff(g)
     rg = ffgen.gen_resgraph(g, ff)
